@@ -2,16 +2,131 @@ import AioModel.C07
 import AioProps.C07Lemmas
 /-!
 # C07 — connection pool: limits hold, nothing leaks, no waiter is forgotten
-(property theorems; under construction)
+
+All theorems quantify over **every label sequence** `ls` (every interleaving, at await
+granularity, of spawns, single event-loop callbacks, connection attempts succeeding or failing,
+cancellations, connect timeouts, releases, lost idle connections, connector close and shuffle
+results) from the initial state of any number of tasks with any keys and any limits.
+
+They are about `step Fixes.all`, the model of `BaseConnector` with the four repairs switched on
+(AioModel/C07.lean; the repaired code was checked to conform to this model by the same trace
+conformance run as the unrepaired one).  For `Fixes.none` — the code as it is — the four
+`*_unfixed` theorems are kernel-checked counterexamples.
 -/
 namespace Aio.C07
 
+/-- **limit_inv.** After every label sequence the number of entries of `_acquired` (connections in
+use + placeholders of connections being established) is at most `limit` (0 = unlimited) and, for
+every key, the number of entries of `_acquired_per_host[key]` is at most `limit_per_host`. -/
+theorem limit_inv (limit lph : Nat) (keys : List Key) (ls : List Label) :
+    let s := run Fixes.all (init limit lph keys) ls
+    (s.limit = 0 ∨ s.acquired.length ≤ s.limit) ∧ (s.lph = 0 ∨ ∀ k, hostCount s k ≤ s.lph) := by
+  have h := (inv_run (inv_init limit lph keys).1 (inv_init limit lph keys).2 ls).1
+  exact ⟨h.lim, h.limh⟩
+
+/-- **attempts are counted.** While the connector is open, every task that is establishing a connection
+has its placeholder in `_acquired` (and in `_acquired_per_host` under its key when a per-host limit
+is set): the count bounded by `limit_inv` really includes every connection attempt in progress. -/
+theorem attempts_counted (limit lph : Nat) (keys : List Key) (ls : List Label) (t : Tid) (r : Option Bool) :
+    let s := run Fixes.all (init limit lph keys) ls
+    s.closed = false → pcOf s t = some (.creating r) →
+      Slot.ph t ∈ s.acquired ∧ (s.lph ≠ 0 → (keyOf s t, Slot.ph t) ∈ s.perHost) := by
+  intro s hc hp
+  exact (inv_run (inv_init limit lph keys).1 (inv_init limit lph keys).2 ls).1.ph_present hc t r hp
+
+/-- a request is live while it is queued to start, waits for a slot, establishes or holds a connection -/
+def Pc.live : Pc → Prop
+  | .start => True | .waiting => True | .creating _ => True | .holding _ => True
+  | _ => False
+
+/-- **no_leak.** In any reachable state in which no request is live (every task has not started, has
+released its connection, or has failed / was cancelled / timed out) nothing remains counted:
+`_acquired`, `_acquired_per_host` and the waiter queues are empty.  (Quiescence is not even needed.) -/
+theorem no_leak (limit lph : Nat) (keys : List Key) (ls : List Label) :
+    let s := run Fixes.all (init limit lph keys) ls
+    (∀ t pc, pcOf s t = some pc → ¬ pc.live) → s.acquired = [] ∧ s.perHost = [] ∧ s.waitq = [] := by
+  intro s hdead
+  have h := inv_run (inv_init limit lph keys).1 (inv_init limit lph keys).2 ls
+  refine ⟨?_, ?_, ?_⟩
+  · apply List.eq_nil_iff_forall_not_mem.mpr
+    intro sl hm
+    cases sl with
+    | ph t => obtain ⟨r, hr⟩ := h.1.ph_owner t hm; exact hdead t _ hr trivial
+    | conn c => obtain ⟨t, hr⟩ := h.1.conn_owner c hm; exact hdead t _ hr trivial
+  · apply List.eq_nil_iff_forall_not_mem.mpr
+    intro ⟨k, sl⟩ hm
+    cases sl with
+    | ph t => obtain ⟨_, r, hr⟩ := h.1.hph_owner k t hm; exact hdead t _ hr trivial
+    | conn c => obtain ⟨t, _, hr⟩ := h.1.hconn_owner k c hm; exact hdead t _ hr trivial
+  · apply List.eq_nil_iff_forall_not_mem.mpr
+    intro t hm
+    exact hdead t _ (h.2 t hm) trivial
+
+/-- the hypothesis of `no_leak` is satisfiable in a non-trivial run: one request connects and releases,
+a second one is cancelled while waiting for the slot -/
+example :
+    let s := run Fixes.all (init 1 0 [0, 0]) [.spawn 0, .tick, .spawn 1, .tick, .createDone 0 true, .tick,
+      .cancel 1, .tick, .release 0 true]
+    (∀ t pc, pcOf s t = some pc → ¬ pc.live) ∧ s.conns.length = 1 := by
+  intro s
+  have e : s.tasks.map (·.pc) = [.done, .failed .cancelled] := by decide +kernel
+  refine ⟨?_, by decide +kernel⟩
+  intro t pc h
+  have h' : (s.tasks.map (·.pc))[t]? = some pc := by simpa [pcOf] using h
+  rw [e] at h'
+  match t, h' with
+  | 0, h' => cases h'; exact id
+  | 1, h' => cases h'; exact id
+  | n + 2, h' => simp at h'
+
+/-! ## the code as it is (`Fixes.none`): kernel-checked counterexamples -/
+
 /-- F7 on the model of the code as it is: `limit = 1`, a pooled connection for host 0, a request in
-flight to host 1, a new request to host 0 takes the pooled connection on the fast path: two in use. -/
+flight to host 1, a new request to host 0 takes the pooled connection on the fast path: two in use.
+With the repair the same labels leave one in use. -/
 def f7Labels : List Label :=
   [.spawn 0, .tick, .createDone 0 true, .tick, .release 0 true, .spawn 1, .tick, .createDone 1 true, .tick, .spawn 2, .tick]
 theorem f7_limit_exceeded_unfixed :
     (run Fixes.none (init 1 0 [0, 1, 0]) f7Labels).acquired.length = 2
     ∧ (run Fixes.all (init 1 0 [0, 1, 0]) f7Labels).acquired.length = 1 := by decide +kernel
+
+/-- F8: `limit = 1`; task 0 holds, tasks 1 and 2 wait; 0 closes its connection (wakes 1); 1 is cancelled
+before it runs.  Code as it is: quiescent, nothing in use, task 2 still parked on a pending future.
+With the repair task 2 is establishing its connection. -/
+def f8Labels : List Label :=
+  [.spawn 0, .tick, .createDone 0 true, .tick, .spawn 1, .tick, .spawn 2, .tick, .release 0 false, .cancel 1, .tick, .tick]
+theorem f8_lost_wakeup_unfixed :
+    (let s := run Fixes.none (init 1 0 [0, 0, 0]) f8Labels
+     s.ready = [] ∧ s.acquired = [] ∧ s.waitq = [2] ∧ pcOf s 2 = some .waiting ∧ futOf s 2 = .pending ∧ hasCap s 0 = true)
+    ∧ (let s := run Fixes.all (init 1 0 [0, 0, 0]) f8Labels
+       s.ready = [] ∧ pcOf s 2 = some (.creating none)) := by decide +kernel
+
+/-- a further lost wake-up (found while building this model): `limit_per_host = 1`, no global limit.
+Hosts 0 and 1 are busy; tasks 2, 4 wait for host 0 and task 3 for host 1.  The release of host 0 wakes 2;
+the release of host 1 wakes 4 (host 0 still looks free, the shuffle put it first).  2 takes host 0's slot,
+4 finds none and re-queues without passing the wake-up on: task 3 stays parked although host 1 is free. -/
+def raceLabels : List Label :=
+  [.shuffle [0, 1], .spawn 0, .tick, .createDone 0 true, .tick, .spawn 1, .tick, .createDone 1 true, .tick,
+   .spawn 2, .tick, .spawn 3, .tick, .spawn 4, .tick, .release 0 false, .release 1 false, .tick, .tick]
+theorem race_lost_wakeup_unfixed :
+    (let s := run Fixes.none (init 0 1 [0, 1, 0, 1, 0]) raceLabels
+     s.ready = [] ∧ pcOf s 3 = some .waiting ∧ futOf s 3 = .pending ∧ hasCap s 1 = true)
+    ∧ (let s := run Fixes.all (init 0 1 [0, 1, 0, 1, 0]) raceLabels
+       pcOf s 3 = some .waiting ∧ futOf s 3 = .woken ∧ s.ready = [3]) := by decide +kernel
+
+/-- `connect()` on a closed connector (found while building this model): `limit = 1`; the connector is closed,
+then a request starts: its placeholder is added to `_acquired` and never removed (the attempt ends with
+"Connector is closed", `_release_acquired` is a no-op once closed); a second request then parks for ever.
+With `limit_per_host` the entries of `_acquired_per_host` also survive `close()`.  With the repair both
+requests fail at once and nothing is counted. -/
+def afterCloseLabels : List Label :=
+  [.close, .spawn 0, .tick, .createDone 0 true, .tick, .spawn 1, .tick]
+theorem after_close_leak_unfixed :
+    (let s := run Fixes.none (init 1 0 [0, 0]) afterCloseLabels
+     s.ready = [] ∧ s.acquired = [.ph 0] ∧ pcOf s 0 = some (.failed .closedErr) ∧ pcOf s 1 = some .waiting
+       ∧ futOf s 1 = .pending)
+    ∧ (let s := run Fixes.all (init 1 0 [0, 0]) afterCloseLabels
+       s.acquired = [] ∧ pcOf s 0 = some (.failed .closedErr) ∧ pcOf s 1 = some (.failed .closedErr)) := by
+  decide +kernel
 
 end Aio.C07
